@@ -391,20 +391,74 @@ def rule_P5(ctx) -> None:
     comp = ctx.repo.mod(M_PCOMPILER)
     fn = comp.func("outputfile_compiler")
     g = CFG(fn, implicit_exc=False)
-    body_r = {nd.id for nd in g.nodes if nd.stmt is not None and nd.kind == "stmt" and "body_template.render" in ast.unparse(nd.stmt)}
-    head_r = [nd for nd in g.nodes if nd.stmt is not None and nd.kind == "stmt" and "header_template.render" in ast.unparse(nd.stmt)]
-    if not body_r or not head_r:
-        # resolve through get_template names
-        tmpl = {}
-        for n in ast.walk(fn):
-            if isinstance(n, ast.Assign) and isinstance(n.value, ast.Call) and ast.unparse(n.value.func).endswith("get_template") and n.value.args and isinstance(n.value.args[0], ast.Constant):
-                tmpl[n.targets[0].id if isinstance(n.targets[0], ast.Name) else ""] = n.value.args[0].value
-        bvar = next((k for k, v in tmpl.items() if v.startswith("template")), None)
-        hvar = next((k for k, v in tmpl.items() if v.startswith("header")), None)
-        body_r = {nd.id for nd in g.nodes if nd.stmt is not None and nd.kind == "stmt" and bvar and f"{bvar}.render" in ast.unparse(nd.stmt)}
-        head_r = [nd for nd in g.nodes if nd.stmt is not None and nd.kind == "stmt" and hvar and f"{hvar}.render" in ast.unparse(nd.stmt)]
+    # render events in evaluation order: `X.render(..)` with X bound to get_template(<name>), `..get_template(<name>).render(..)`,
+    # and calls H(<name>, ..) of a function of the module that renders the template its parameter names
+    tmpl = {}
+    for n in ast.walk(fn):
+        if isinstance(n, ast.Assign) and isinstance(n.value, ast.Call) and ast.unparse(n.value.func).endswith("get_template") and n.value.args and isinstance(n.value.args[0], ast.Constant) \
+                and isinstance(n.targets[0], ast.Name):
+            tmpl[n.targets[0].id] = n.value.args[0].value
+    # `a, b = H()` with H a function of the module whose only return is a tuple of get_template(<name>) results (possibly through locals)
+    for n in ast.walk(fn):
+        if isinstance(n, ast.Assign) and isinstance(n.targets[0], ast.Tuple) and isinstance(n.value, ast.Call) and isinstance(n.value.func, ast.Name) and comp.has(n.value.func.id):
+            h_ = comp.func(n.value.func.id)
+            rets_ = [r.value for r in ast.walk(h_) if isinstance(r, ast.Return) and r.value is not None]
+            loc_ = {a.targets[0].id: a.value for a in ast.walk(h_) if isinstance(a, ast.Assign) and len(a.targets) == 1 and isinstance(a.targets[0], ast.Name)}
+            if len(rets_) == 1 and isinstance(rets_[0], ast.Tuple) and len(rets_[0].elts) == len(n.targets[0].elts):
+                for t_, e_ in zip(n.targets[0].elts, rets_[0].elts):
+                    if isinstance(e_, ast.Name) and e_.id in loc_:
+                        e_ = loc_[e_.id]
+                    if isinstance(t_, ast.Name) and isinstance(e_, ast.Call) and ast.unparse(e_.func).endswith("get_template") and e_.args and isinstance(e_.args[0], ast.Constant):
+                        tmpl[t_.id] = e_.args[0].value
+    renderers = {}
+    for q, h in comp.functions():
+        if "." in q or q == "outputfile_compiler":
+            continue
+        params = [a.arg for a in h.args.args]
+        gets = [c for c in ast.walk(h) if isinstance(c, ast.Call) and ast.unparse(c.func).endswith("get_template") and c.args and isinstance(c.args[0], ast.Name) and c.args[0].id in params]
+        if gets and any(isinstance(c, ast.Call) and isinstance(c.func, ast.Attribute) and c.func.attr == "render" for c in ast.walk(h)):
+            renderers[q] = params.index(gets[0].args[0].id)
+
+    def calls_in_order(e):
+        for ch in ast.iter_child_nodes(e):
+            yield from calls_in_order(ch)
+        if isinstance(e, ast.Call):
+            yield e
+
+    def events(stmt):
+        out = []
+        for c in calls_in_order(stmt):
+            name = None
+            if isinstance(c.func, ast.Attribute) and c.func.attr == "render":
+                r = c.func.value
+                if isinstance(r, ast.Name):
+                    name = tmpl.get(r.id)
+                elif isinstance(r, ast.Call) and ast.unparse(r.func).endswith("get_template") and r.args and isinstance(r.args[0], ast.Constant):
+                    name = r.args[0].value
+            elif isinstance(c.func, ast.Name) and c.func.id in renderers and len(c.args) > renderers[c.func.id] and isinstance(c.args[renderers[c.func.id]], ast.Constant):
+                name = c.args[renderers[c.func.id]].value
+            if isinstance(name, str):
+                out.append("body" if name.startswith("template") else "header" if name.startswith("header") else name)
+        return out
+
+    ev = {nd.id: events(nd.stmt) for nd in g.nodes if nd.stmt is not None and nd.kind == "stmt"}
+    body_r = {i_ for i_, e in ev.items() if "body" in e and "header" not in e}
+    # a statement that renders both is in order when the body comes first in it
+    both_ok = {i_ for i_, e in ev.items() if "body" in e and "header" in e and e.index("body") < e.index("header")}
+    head_r = [nd for nd in g.nodes if nd.id in ev and "header" in ev[nd.id] and nd.id not in both_ok]
+    if both_ok and not head_r and not body_r:
+        body_r = set(both_ok)
+        head_r = []
+        ctx.proved("P5", "outputfile_compiler:body-before-header", comp.loc(fn))
+        return
+    if not body_r and not both_ok:
+        ctx.inconclusive("P5", "outputfile_compiler:body-before-header", "no rendering of the body template found", comp.loc(fn))
+        return
+    if not head_r and not both_ok:
+        ctx.inconclusive("P5", "outputfile_compiler:body-before-header", "no rendering of the header template found", comp.loc(fn))
+        return
     dom = g.dominators(labels=normal_edge)
-    if body_r and head_r and all(dom[h.id] & body_r and h.id not in body_r for h in head_r):
+    if all(dom[h.id] & (body_r | both_ok) and h.id not in body_r for h in head_r):
         ctx.proved("P5", "outputfile_compiler:body-before-header", comp.loc(fn))
     else:
         ctx.refuted("P5", "outputfile_compiler:body-before-header", "order", comp.loc(fn),
